@@ -105,6 +105,9 @@ def arith(op, a, b, env, python=False):
     dialect = env.ctx.dialect
     if a.sort == 'str' or b.sort == 'str':
         if op == '||' or (python and op == '+'):
+            if op == '||':      # SQL concatenation converts numbers to their text rendering
+                if a.sort == 'int': a = SV('str', INT2STR(a.t), a.n)
+                if b.sort == 'int': b = SV('str', INT2STR(b.t), b.n)
             a, b = unify(a, b)
             return SV('str', z3.Concat(a.t, b.t), z3.Or(a.n, b.n))
         raise Unmodelled('arithmetic %s on strings' % op)
@@ -338,6 +341,7 @@ def _cast(e, env):
     if ty.startswith('int') or ty in ('signed', 'bigint', 'integer'):
         if a.sort in ('int', 'bool', 'null'): return to_int(a)
     if ty in ('text', 'varchar', 'char') and a.sort == 'str': return a
+    if ty in ('text', 'varchar', 'char') and a.sort == 'int': return SV('str', INT2STR(a.t), a.n)
     if ty in ('bool', 'boolean') and a.sort == 'bool': return a
     raise Unmodelled('cast of %s to %s' % (a.sort, ty))
 
@@ -438,6 +442,39 @@ def str_length(v):
 
 UPPER = z3.Function('py_upper', z3.StringSort(), z3.StringSort())
 LOWER = z3.Function('py_lower', z3.StringSort(), z3.StringSort())
+TRIM_L = 10      # strings in this universe are far shorter (attributes <= 3 characters, a few concatenations)
+
+
+def _in_set(s, i, chars):
+    c = z3.SubString(s, i, 1)
+    member = (c == z3.StringVal(' ')) if chars is None else z3.Contains(chars, c)
+    return z3.And(z3.IntVal(i) < z3.Length(s), member)
+
+
+def py_trim(kind, s, chars=None):
+    """exact definition of Python's strip/lstrip/rstrip (= SQL trim/ltrim/rtrim on printable ASCII, where the only whitespace is the
+    space) for strings of at most TRIM_L characters"""
+    n = z3.Length(s)
+    lead = z3.IntVal(TRIM_L)
+    for i in range(TRIM_L - 1, -1, -1):
+        lead = z3.If(_in_set(s, i, chars), lead, z3.IntVal(i))
+    lead = z3.If(lead > n, n, lead)
+    if kind == 'ltrim': return z3.SubString(s, lead, n - lead)
+    # trailing run: first index from the end that is not in the set
+    trail = z3.IntVal(TRIM_L)
+    for i in range(TRIM_L - 1, -1, -1):
+        c = z3.SubString(s, n - 1 - i, 1)
+        member = (c == z3.StringVal(' ')) if chars is None else z3.Contains(chars, c)
+        trail = z3.If(z3.And(z3.IntVal(i) < n, member), trail, z3.IntVal(i))
+    trail = z3.If(trail > n, n, trail)
+    if kind == 'rtrim': return z3.SubString(s, 0, n - trail)
+    # both ends: when everything is stripped the two runs overlap
+    return z3.If(lead + trail >= n, z3.StringVal(''), z3.SubString(s, lead, n - lead - trail))
+
+
+def INT2STR(t):
+    """decimal rendering of an int (str() in Python, CAST AS text in SQL)"""
+    return z3.If(t < 0, z3.Concat(z3.StringVal('-'), z3.IntToStr(-t)), z3.IntToStr(t))
 
 
 def _func(e, env):
@@ -530,8 +567,26 @@ def _func(e, env):
         if s.sort == 'str':
             return SV('str', z3.Replace(s.t, frm.t, to.t) if len(f) and False else _replace_all(s.t, f, t), s.n)
         raise Unmodelled('replace chain of unknown shape')
-    if name in ('trim', 'ltrim', 'rtrim'):
-        raise Unmodelled(name)
+    if name in ('trim', 'ltrim', 'rtrim') and len(a) in (1, 2):
+        # SQLite lang_corefunc trim(X[,Y]): removes any characters that appear in Y (default: spaces) from both ends of X
+        v = a[0]
+        if v.sort == 'null': return v
+        if v.sort != 'str': raise Unmodelled('%s of %s' % (name, v.sort))
+        if len(a) == 1: return SV('str', py_trim(name, v.t), v.n)
+        c = a[1]
+        if c.sort == 'null': return typed_null(c, 'str')
+        if c.sort != 'str': raise Unmodelled('%s characters of sort %s' % (name, c.sort))
+        return SV('str', py_trim(name, v.t, c.t), z3.Or(v.n, c.n))
+    if name in ('power', 'pow') and len(a) == 2:
+        x, y = a
+        if x.sort == 'bool': x = to_int(x)
+        if x.sort != 'int' or y.sort != 'int' or not z3.is_int_value(y.t) or not (0 <= y.t.as_long() <= 3):
+            raise Unmodelled('power with a non-constant or large exponent')
+        t = z3.IntVal(1)
+        for _ in range(y.t.as_long()): t = t * x.t
+        return SV('int', t, x.n)
+    if name == 'int_to_str' and len(a) == 1:
+        return SV('str', INT2STR(a[0].t), a[0].n)
     raise Unmodelled('function %s/%d' % (name, len(a)))
 
 
